@@ -377,8 +377,9 @@ fn test_max_subtree_len() {
 #[inline(always)]
 pub fn left_subtree_len(input_len: u64) -> u64 {
     debug_assert!(input_len > CHUNK_LEN as u64);
-    // Note that .next_power_of_two() is greater than *or equal*.
-    ((input_len + 1) / 2).next_power_of_two()
+    // Note that .next_power_of_two() is greater than *or equal*. Computing the rounded-up half as
+    // (input_len - 1) / 2 + 1 rather than (input_len + 1) / 2 avoids overflow at u64::MAX.
+    ((input_len - 1) / 2 + 1).next_power_of_two()
 }
 
 #[test]
